@@ -22,7 +22,9 @@ SHARD_TIMEOUT = {"quick": 300, "thorough": 3000}
 
 def shards(tier, seed):
     n = 12 if tier == "quick" else 64
-    return [{"name": f"h-{i}", "i": i, "tier": tier, "seed": seed} for i in range(n)]
+    out = [{"name": f"h-{i}", "i": i, "tier": tier, "seed": seed} for i in range(n)]
+    out += [{"name": f"many-streams-{i}", "many": True, "tier": tier, "seed": seed} for i in range(2 if tier == "quick" else 8)]
+    return out
 
 
 # an input = (entry point name, argument, kwargs)
@@ -171,7 +173,63 @@ def make_config(rng):
     return {"include_manufacturer_code": ["Raymarine", "Furuno"]}
 
 
+def run_many_streams(spec, acc):
+    """Rejected / ignored fast-packet fragments on a large number of distinct (PGN, source, destination) streams
+    (orphan continuation frames, empty frames, abandoned first frames), then complete messages on streams the
+    decoder has never seen: they must decode exactly as on a fresh decoder, however many leftovers there are."""
+    dbx = refdb.db()
+    rng = gen.rng_for(spec["seed"], ID, spec["name"])
+    quick = spec["tier"] == "quick"
+    for rep in range(6 if quick else 60):
+        pool = hist.Pool(dbx, rng, n_single=3, n_fast=6)
+        if not pool.fasts:
+            continue
+        victim, fresh = NMEA2000Decoder(), NMEA2000Decoder()
+        n_streams = rng.choice([40, 70, 150, 300])
+        bad = 0
+        for k in range(n_streams):
+            d = rng.choice(pool.fasts)
+            src = k % 250
+            ident = wire.can_id(3, d.pgn, src, 255)
+            kind = k % 4
+            if kind == 0:
+                frame = bytes([(rng.randrange(6) << 5) | rng.randint(1, 5)]) + bytes(7)          # orphan continuation frame
+            elif kind == 1:
+                frame = b""                                                                       # no data at all
+            elif kind == 2:
+                frame = bytes([rng.randrange(6) << 5, 40, 1, 2, 3, 4, 5, 6])                     # first frame, never completed
+            else:
+                frame = bytes([rng.randrange(6) << 5])                                            # truncated first frame
+            o = call(victim, ("decode_tcp", wire.ebyte_frame(ident, frame), {}))
+            bad += 1
+            if o[0] == "msg":
+                acc.violation("fragment-produced-a-message", f"a fast-packet fragment of {len(frame)} bytes produced a message", {"frame": frame.hex()})
+        acc.count("bad_inputs_given", bad)
+        compared = 0
+        for probe_no in range(12):
+            d = rng.choice(pool.fasts)
+            pb = pool.payload(d)
+            if not pb:
+                continue
+            src = 251 + probe_no % 4                       # sources never used above
+            ident = wire.can_id(5, d.pgn, src, 255)
+            frames = [("decode_tcp", wire.ebyte_frame(ident, f), {}) for f in wire.fast_frames(pb, 6 + probe_no % 2, 0xFF)]
+            ov = [call(victim, i) for i in frames]
+            of = [call(fresh, i) for i in frames]
+            acc.count("probes_compared")
+            compared += 1
+            if ov != of:
+                acc.violation("history-changes-fast-packet-probe", f"after fragments on {n_streams} streams a complete message on a new stream decodes differently than on a fresh decoder "
+                              f"({[o[0] for o in ov][-1]} vs {[o[0] for o in of][-1]})", {"streams_with_leftovers": n_streams, "probe_pgn": d.pgn, "probe_source": src})
+        acc.case(("many-streams", rep, n_streams) if compared else None)
+        acc.count("determinism_histories")
+        acc.count("isolation_subhistories")
+        acc.cover("leftover_stream_counts", n_streams)
+
+
 def run_shard(spec, acc):
+    if spec.get("many"):
+        return run_many_streams(spec, acc)
     dbx = refdb.db()
     rng = gen.rng_for(spec["seed"], ID, spec["name"])
     quick = spec["tier"] == "quick"
